@@ -84,6 +84,17 @@ PROPS = {
              "thorough": {"checks": 8000, "shards": 16, "timeout": 1800}},
         ],
     },
+    "C12": {
+        "level": "exploration",
+        "jobs": [
+            {"test": "TestC12", "variant": "std",
+             "quick": {"checks": 12, "shards": 14, "timeout": 400},
+             "thorough": {"checks": 150, "shards": 14, "timeout": 2400}},
+            {"test": "TestC12Enum", "variant": "std", "enum": True,
+             "quick": {"checks": 1, "shards": 2, "timeout": 400},
+             "thorough": {"checks": 1, "shards": 2, "timeout": 2400}},
+        ],
+    },
     "C13": {
         "level": "exploration",
         "jobs": [
